@@ -43,7 +43,7 @@ func replayOnRealCode(r symex.Result) *realReplay {
 	}
 	var gen func(map[string]symex.WVal) (string, string)
 	switch {
-	case strings.HasPrefix(o.Func, "jp.(Expr).") && (strings.HasPrefix(o.Region, "nth") || strings.HasPrefix(o.Region, "slice") || strings.HasPrefix(o.Region, "union")):
+	case (strings.HasPrefix(o.Func, "jp.(Expr).") || o.Func == "jp.(Nth).locate") && (strings.HasPrefix(o.Region, "nth") || strings.HasPrefix(o.Region, "slice") || strings.HasPrefix(o.Region, "union")):
 		gen = func(w map[string]symex.WVal) (string, string) { return "jp", jpIndexTest(o.Region, w) }
 	case o.Func == "jp.(Nth).remove" || o.Func == "jp.(Slice).remove":
 		gen = func(w map[string]symex.WVal) (string, string) { return "jp", jpRemoveTest(o.Func, w) }
@@ -249,6 +249,15 @@ func TestVcheckReplay(t *testing.T) {
 				}
 				if has := x.Has(data); has != (0 < len(want)) {
 					t.Errorf("REPLAY-FAIL %s.Has on %s of length %d: got %v, the path denotes %v", x, kind, n, has, want)
+				}
+				if last {
+					var located []any
+					for _, loc := range x.Locate(data, 0) {
+						located = append(located, loc.First(data))
+					}
+					if li := toInts(located); !reflect.DeepEqual(li, want) && !(len(li) == 0 && len(want) == 0) {
+						t.Errorf("REPLAY-FAIL %s.Locate on %s of length %d: locations lead to %v, the path denotes %v", x, kind, n, li, want)
+					}
 				}
 			}()
 		}
